@@ -62,7 +62,7 @@ for pid in sorted(meta):
         na.append({"property_id": pid, "reason": extra.get(pid, {}).get("na", "no static rule armed for this property in this commit (rules are being built property by property, DESIGN.md §8); nothing is claimed for it")})
 man = {
  "version": 1,
- "setup_cmd": ". ./env.sh && mkdir -p bin evidence && cd checker && go build -o ../bin/gtcheck ./cmd/gtcheck",
+ "setup_cmd": ". ./env.sh && mkdir -p bin evidence && cd checker && go build -o ../bin/gtcheck ./cmd/gtcheck && go build -o ../bin/mutrun ./cmd/mutrun",
  "hooks": {"guard": "verif", "enable": "none needed: the analysis reads /repo's sources as they are (no instrumentation); -tags verif would enable hooks if any existed",
            "baseline_off_cmd": ". /verif/env.sh && cd /repo && go test -json -vet=off -count=1 -timeout 25m ./...",
            "source_commits": [], "add_only": True},
